@@ -287,6 +287,14 @@ impl<'tcx> Cx<'tcx> {
                 let ups: Vec<Ty<'tcx>> = args.as_closure().upvar_tys().iter().collect();
                 let v: Vec<J> = ups.into_iter().map(|t| n(self.ty_id(t))).collect();
                 f.push(("upvars".into(), J::A(v)));
+                // the closure body itself is a callable instance: make sure it is dumped even
+                // when the closure is only handed to an external (modelled) function
+                let inst = Instance::new_raw(def, args);
+                let key = self.inst_key(inst);
+                if self.seen.len() < self.max_instances && self.should_descend(inst) {
+                    self.enqueue(inst);
+                }
+                f.push(("body_key".into(), s(key)));
             }
             ty::FnPtr(..) => put("k", s("fnptr")),
             ty::Dynamic(..) => put("k", s("dyn")),
